@@ -691,6 +691,50 @@ def c07(v, tier):
                 if more:
                     v.violation("C07/net/ack-after-error-mid-upload", f"{cfg}: {len(more)} datagram(s) after the client's ERROR in the middle of an upload", {"engine": "net", "config": cfg})
             s.close()
+            # the same with a small negotiated block size and ERROR messages longer than a block (the worker reads with a
+            # buffer sized for the negotiated block size)
+            for b, msg in ((8, b"Disk full or allocation exceeded on the client side"), (16, b"x" * 200), (8, "\u00e9".encode() * 60)):
+                evals += 1
+                s = N._sock(timeout=1.0)
+                tr = N.Transfer()
+                name = f"abort_small_{b}_{len(msg)}.bin"
+                s.sendto(N.enc_req(N.WRQ, name, options=[("timeout", 1), ("blksize", b)]), srv.addr)
+                k, f, peer = N.recv(s, tr)
+                if k == "OACK":
+                    s.sendto(N.enc_data(1, b"A" * b), peer)
+                    N.recv(s, tr)
+                    s.sendto(N.enc_error(3, msg), peer)
+                    gone_after = None
+                    t0 = time.time()
+                    while time.time() - t0 < 3.0:
+                        if not os.path.exists(os.path.join(sb["srv"], name)):
+                            gone_after = time.time() - t0
+                            break
+                        time.sleep(0.05)
+                    s.sendto(N.enc_data(2, b"B"), peer)        # a late final block: the transfer is over, nobody acknowledges it
+                    more = quiet_after(s, 0.4)
+                    rp = {"engine": "net", "config": cfg, "blksize": b, "error_message_bytes": len(msg)}
+                    if gone_after is None:
+                        v.violation("C07/net/upload-not-ended-on-long-error", f"{cfg}: blksize {b}: 3 s after the client's ERROR (message of {len(msg)} bytes) the upload worker had still not ended (partial file still there)", rp)
+                    if [m for m in more if N.dec(m[1])[0] == "ACK"]:
+                        v.violation("C07/net/ack-after-long-error", f"{cfg}: blksize {b}: DATA sent after the client's ERROR (message of {len(msg)} bytes) was still acknowledged", rp)
+                else:
+                    v.note_inconclusive(f"{cfg}: small-blksize ERROR scenario got {k}")
+                s.close()
+                # download side: a long ERROR instead of the ACK of DATA 1
+                evals += 1
+                s = N._sock(timeout=1.0)
+                tr = N.Transfer()
+                s.sendto(N.enc_req(N.RRQ, "f.bin", options=[("timeout", 1), ("blksize", b)]), srv.addr)
+                k, f, peer = N.recv(s, tr)
+                if k == "OACK":
+                    s.sendto(N.enc_ack(0), peer)
+                    N.recv(s, tr)
+                    s.sendto(N.enc_error(0, msg), peer)
+                    more = [m for m in quiet_after(s, 1.6) if N.dec(m[1])[0] == "DATA"]
+                    if more:
+                        v.violation("C07/net/data-after-long-error", f"{cfg}: blksize {b}: {len(more)} DATA datagram(s) after the client's ERROR with a {len(msg)}-byte message", {"engine": "net", "config": cfg, "blksize": b, "error_message_bytes": len(msg)})
+                s.close()
             # partial / per-block ACKs around the end of file: no block beyond the final one, silence after the end
             for fname, nblocks in (("f.bin", 6), ("exact.bin", 5)):
                 for w, every in ((4, 1), (4, 3), (3, 2), (8, 5)):
